@@ -47,6 +47,7 @@ type GenCfg struct {
 	RestartRate float64
 	EvictRate float64
 	BigRate   float64 // probability of slab-sized values
+	ScnRate   float64 // probability that a step is the next step of a scenario (scenarios.go)
 	FaultKinds []string
 	Nodes     []NodeConfig
 }
@@ -57,6 +58,7 @@ type Gen struct {
 	M   *Model
 	nonce int
 	queue []Op // ops that a family wants to follow the one it just returned (same transaction)
+	scn   scnState
 }
 
 func (g *Gen) path() string { return fmt.Sprintf("p%d", g.R.Intn(g.Cfg.NPaths)) }
@@ -892,7 +894,8 @@ func (g *Gen) Plan(seed uint64) *Plan {
 	p.Steps = append(p.Steps, Step{Kind: "deploy", Name: "World", Source: WorldSrc, Signers: []uint64{1}})
 	p.Steps = append(p.Steps, g.prelude()...)
 	g.M = NewModel(g.Cfg.NAccts)
-	for len(p.Steps) < g.Cfg.Steps+1 {
+	nPre := len(p.Steps)
+	for len(p.Steps) < g.Cfg.Steps+nPre {
 		switch {
 		case g.R.Chance(g.Cfg.RestartRate):
 			p.Steps = append(p.Steps, Step{Kind: "restart", Node: g.shadow()})
@@ -910,7 +913,9 @@ func (g *Gen) Plan(seed uint64) *Plan {
 		}
 		isScript := g.R.Chance(g.Cfg.ScriptRate)
 		st := Step{Kind: "tx"}
-		if isScript {
+		if g.Cfg.ScnRate > 0 && g.R.Chance(g.Cfg.ScnRate) {
+			st = g.scn.next(g.R)
+		} else if isScript {
 			st.Kind = "script"
 			save := g.M
 			st.Ops = g.ops(true)
@@ -981,4 +986,9 @@ func (g *Gen) shadow() string {
 	return g.Cfg.Nodes[1+g.R.Intn(len(g.Cfg.Nodes)-1)].Name
 }
 
-func (g *Gen) prelude() []Step { return nil }
+func (g *Gen) prelude() []Step {
+	if g.Cfg.ScnRate > 0 {
+		return scnPrelude()
+	}
+	return nil
+}
